@@ -460,6 +460,9 @@ class Interp:
                 return ('shape', a)
             if isinstance(base, View):
                 return ('viewshape', base)
+            if isinstance(base, Opaque) and base.struct and base.struct[0] == 'matches':
+                # positions of the matching elements: a vector whose only extent is their number (`m.shape[0]` = `len(m)`)
+                return TupleV([Rat.atom(App('count', [base.struct[1]]))])
         if e.attr in ('dtype',):
             a = self.as_arr(base, getattr(e.value, 'id', None))
             return ('dtype', a.name if a else repr(base))
@@ -951,9 +954,10 @@ class Interp:
                 'argmin', 'argmax'):
             args = [self.arg_key(self.ev(a)) for a in args_nodes]
             return Rat.atom(App('reduce:' + short, args))
-        if dn in ('numpy.where',):
+        if dn in ('numpy.where', 'numpy.nonzero'):
+            # np.nonzero(c) is np.where(c) with one argument
             args = [self.ev(a) for a in args_nodes]
-            if len(args) == 3:
+            if len(args) == 3 and short == 'where':
                 c = self.cond_of(args[0], e)
                 return Rat.atom(App('ite', [cond_arg(c), self.as_scalar(args[1], e), self.as_scalar(args[2], e)]))
             if len(args) == 1 and _is_cond(args[0]):
@@ -1006,6 +1010,11 @@ class Interp:
         dtype = None
         if 'dtype' in kw:
             dtype = norm(kw['dtype'])
+            dn_ = kw['dtype']
+            if isinstance(dn_, ast.Attribute) and dn_.attr == 'dtype' and isinstance(dn_.value, ast.Name) and \
+                    isinstance(self.env.get(dn_.value.id), Arr) and isinstance(self.env[dn_.value.id].dtype, str) and \
+                    self.env[dn_.value.id].init != 'param':
+                dtype = self.env[dn_.value.id].dtype       # `dtype=out.dtype` of a local array allocated with a dtype of its own
         elif short != 'full' and len(e.args) > 1:
             dtype = norm(e.args[1])
         elif short == 'full' and len(e.args) > 2:
